@@ -211,10 +211,13 @@ impl Response {
             let content_length: usize = content_length
                 .parse()
                 .map_err(|_| ResponseError::Response)?;
-            let mut content_buf: Vec<u8> = vec![0u8; content_length];
-            reader
-                .read_exact(&mut content_buf)
+            // Grow the buffer as the body arrives rather than trusting the claimed length
+            let mut content_buf: Vec<u8> = Vec::new();
+            let read = (&mut reader)
+                .take(content_length as u64)
+                .read_to_end(&mut content_buf)
                 .map_err(|_| ResponseError::Stream)?;
+            safe_assert(read == content_length).map_err(|_| ResponseError::Stream)?;
 
             Ok(Self {
                 version,
@@ -278,8 +281,15 @@ where
         stream.read_exact(&mut [0u8, 0]).ok()?;
         None
     } else {
-        let mut content_buf: Vec<u8> = vec![0u8; length];
-        stream.read_exact(&mut content_buf).ok()?;
+        let mut content_buf: Vec<u8> = Vec::new();
+        let read = stream
+            .by_ref()
+            .take(length as u64)
+            .read_to_end(&mut content_buf)
+            .ok()?;
+        if read != length {
+            return None;
+        }
         stream.read_exact(&mut [0u8, 0]).ok()?;
         Some(content_buf)
     }
